@@ -1469,6 +1469,11 @@ fn with_parens(expr: &Expression) -> Markup {
         _ if is_printed_in_sugar_form(expr) => {
             m::operator("(") + expr.pretty_print() + m::operator(")")
         }
+        // A negative number (from a unicode exponent like `⁻¹`) is printed with a sign,
+        // which would be read back as a negation
+        Expression::Scalar { value, .. } if value.to_f64() < 0.0 => {
+            m::operator("(") + expr.pretty_print() + m::operator(")")
+        }
         Expression::Scalar { .. }
         | Expression::Identifier { .. }
         | Expression::UnitIdentifier { .. }
